@@ -116,6 +116,12 @@ pub fn format_rfc3339(sec: i64, nsec: i64, off: i64, zulu_if_utc: bool) -> Strin
     format!("{}T{}{}{}", date, &time[1..], frac, zone)
 }
 
+/// Can instant `sec` be written with a four-digit year in the zone `off`?
+pub fn fits_rfc3339(sec: i64, off: i64) -> bool {
+    let w = sec + off;
+    w >= -62_135_596_800 + 86_400 * 366 && w < 253_402_300_800
+}
+
 /// The reference decision.  `None` = this reference has no opinion (a spelling
 /// outside the canonical grammar that is not in an enumerated malformed class).
 pub fn instant_of(to: &str, offset: &str) -> Option<i64> {
